@@ -37,7 +37,8 @@ KeysB == { K("e3", "attribute_authority", "signing", "kIdp2", "B") }
 KeysDup == { K("e1", "idpsso", "signing", "kAttacker", "B") }
 Cats == [e \in Ents |-> IF e = "e2" THEN {"cat1", "cat2"} ELSE {}]
 Required == [e \in Ents |-> IF e = "e2" THEN {"givenName"} ELSE {}]
-Optional == [e \in Ents |-> IF e = "e2" THEN {"mail", "title"} ELSE {}]      \* mail: no isRequired attribute; title: isRequired="false"
+\* mail: no isRequired attribute; title: isRequired="false"; sn: isRequired="0" (the other legal spelling of false)
+Optional == [e \in Ents |-> IF e = "e2" THEN {"mail", "title", "sn"} ELSE {}]
 
 \* pastOffset: an instant in the past written with a numeric time-zone offset (+02:00) instead of the UTC form the metadata
 \* schema profile demands; read naively (offset dropped, or applied with the wrong sign) it would lie in the future.  The
@@ -50,7 +51,11 @@ Scn == [vuDoc : Validity, vuE1 : Validity, sig : {"none", "valid", "invalid", "w
         bLoose : BOOLEAN,
         \* how the signed remote source A gets into the store: MetadataStore.load("remote", ...) or the new-style
         \* configuration list handed to MetadataStore.imp (class saml2_tophat.mdstore.MetaDataExtern)
-        via : {"load", "imp"}]
+        via : {"load", "imp"},
+        \* reload: source A (a file or a URL) was loaded before with older content -- other keys, other locations, an extra
+        \* category -- and every query was asked once; then it is loaded again with the present content.  What is served
+        \* afterwards is the present content.
+        reload : BOOLEAN]
 
 VARIABLES scn, pc, loaded     \* loaded: sequence of sources registered, in load order
 vars == <<scn, pc, loaded>>
@@ -59,6 +64,7 @@ vars == <<scn, pc, loaded>>
 WellFormed(s) == /\ s.sig \in {"invalid", "wrapped"} => s.cert
                  /\ (s.bLoose => s.order = "BA" /\ s.sig \in {"none", "valid"})
                  /\ (s.via = "imp" => s.cert /\ ~s.bLoose)
+                 /\ (s.reload => s.via = "load" /\ ~s.bLoose /\ s.sig \in {"none", "valid"} /\ s.vuDoc \in {"absent", "future"} /\ s.vuE1 # "pastOffset")      \* (a refresh that fails leaves the earlier content in place: not modelled)
                  /\ (s.vuDoc = "pastOffset" \/ s.vuE1 = "pastOffset") => s.sig \in {"none", "valid"}
 Init == scn \in {s \in Scn : WellFormed(s)} /\ pc = "load1" /\ loaded = <<>>
 
